@@ -3,8 +3,8 @@ import JunoModel.C06.ProofsRun
 C06 — property theorems (obligations). Lemmas, statements for arbitrary code variants and facts
 that merely restate the model are in `Proofs*.lean`; here every theorem is either about the code
 /repo contains NOW (`Cfg.asFound`), or holds for every variant, or is a negation witness
-(`*_before_<commit>` = regression witness for a defect that is fixed in /repo; without suffix = a
-defect that is still in /repo, next to its `_partial` theorem).
+(`*_before_<commit>` = regression witness for a defect that is fixed in /repo; all five defects found
+by this check are fixed, so no `_partial`/negation pair is left).
 
 Model (`Model.lean`): the SERIAL part of juno's sync pipeline as a transition system `Impl.step`
 (every mutation of the chain happens in the callback chain of the `verifiers` stream, one at a
@@ -12,7 +12,8 @@ time); what the source answered, in which order things arrive, whether the strea
 restart, are inputs of the events, so "for all event lists" is "for all source behaviours and all
 schedules" of the part that touches the chain. `Spec.step m` is the relation between commits /
 notifications and the source's answers that the harness checks on observed traces of the real
-`Synchronizer`; `m : Mode` says which answers may decide a revert (`lenient`, `fresh`, `verified`).
+`Synchronizer`; `m : Mode` says which answers may decide a revert (`lenient`, `fresh`, `verified`;
+the code in /repo is held to `verified`).
 The harness also replays every observed run through `Impl.step` itself (driver op `impl`).
 
 Assumptions (checks/c06.json): block numbers are uint64 values; `RevertHead` succeeds on a stored
@@ -165,29 +166,38 @@ theorem head_moves_back_only_by_revert (cfg : Cfg) (s : Impl) (e : Ev) :
 /-! ## what a revert may be decided on -/
 
 /-- THE CODE AS IT IS NOW, full run level. Every run from a well-formed chain — whatever the source
-answers, in whatever order, with restarts — is accepted by `Spec` in mode `fresh`:
+answers (lies included), in whatever order, with restarts — is accepted by `Spec` in mode `verified`:
 * every stored block was served, verified and extends the head;
-* every revert removes the head and is decided by an answer the source gave SINCE THE LAST STORED
-  BLOCK (hence after the reverted block was stored): a block served for that very height with that
-  number and another hash, or a latest header at/below it that differs from the node's block there;
+* every revert removes the head and is decided by a VERIFIED block that the source served, for its
+  own height `r ≤ head`, SINCE THE LAST STORED BLOCK (hence after the reverted block was stored), and
+  that differs from the node's block `r`;
 * the notifications are exactly the owed ones, in order, nothing is owed at the end or at a restart;
 * the chain stays well formed.
 Environment: uint64 block numbers, `RevertHead` succeeds (`EnvOK`). Nothing is assumed about the
-source. (The `rfl`s tie the statement to the switch `Cfg.asFound`.) -/
+source. (The `rfl`s tie the statement to the switch `Cfg.asFound`: they fail if a field goes back.) -/
 theorem run_accepted_asFound (c : Chain) (es : List Ev) (hl : Linked c)
     (hb : ∀ x ∈ c, x.num < U64) (he : EnvOK es) :
-    ∃ sp, Spec.run .fresh (Spec.init c) ((Impl.init c).trace Cfg.asFound es) = .ok sp ∧
+    ∃ sp, Spec.run .verified (Spec.init c) ((Impl.init c).trace Cfg.asFound es) = .ok sp ∧
       sp.chain = (Impl.run Cfg.asFound (Impl.init c) es).1.node.chain ∧ sp.owed = [] ∧
       Linked sp.chain ∧ ∀ x ∈ sp.chain, x.num < U64 :=
-  run_accepted_general Cfg.asFound .fresh ⟨fun _ => rfl, fun h => by cases h⟩ c es hl hb
+  run_accepted_general Cfg.asFound .verified ⟨fun _ => rfl, fun _ => ⟨rfl, rfl⟩⟩ c es hl hb
     (EnvOK.runOK rfl es _ he)
 
-/-- What a `fresh`-mode decision is worth: the deciding answer is one of the answers since the last
-store; if it is a block, the reverted head is absent from EVERY well-formed chain containing that
-block (so from the source's chain at the moment of the answer, if the answer was true then); if it
-is a bare latest header, the head is absent from every chain that has a block with that number and
-hash — but the header itself is an UNVERIFIABLE claim. No hypothesis about the other answers, about
-the source being honest at other times, or about it keeping one chain. -/
+/-- "… of blocks the source no longer has", per decision, for a source that reorgs and lies at will:
+the deciding answer of a `verified`-mode revert is ONE verified block `rb`, served for its own height
+after the reverted head was stored, and the head is absent from EVERY well-formed chain that
+contains `rb` — in particular from the source's chain at the moment it served `rb`. No hypothesis
+about any other answer, about the source being honest at other times, or about it keeping one chain. -/
+theorem verified_revert_absent_from_the_answering_chain (ev : Evidence) (hd : Blk) (tl : Chain)
+    (hj : justified .verified ev (hd :: tl) hd = true) :
+    ∃ rb ∈ ev.rblocks, rb.2.ok = true ∧ rb.1 = rb.2.num ∧ rb.2.num ≤ hd.num ∧
+      ∀ (u : List Blk) (src : Chain), HashInj u → Linked (hd :: tl) → Linked src →
+        (∀ x ∈ hd :: tl, x ∈ u) → (∀ x ∈ src, x ∈ u) → rb.2 ∈ src → hd ∉ src :=
+  verified_revert_sound hj
+
+/-- The weaker relation the code satisfied before 158580c / 40dc8b7 (mode `fresh`: a bare latest
+header or an unverified block could decide): what such a decision was worth. Kept because the
+regression witnesses below are stated against it. -/
 theorem fresh_revert_absent_from_the_answering_chain (ev : Evidence) (hd : Blk) (tl : Chain)
     (hj : justified .fresh ev (hd :: tl) hd = true) :
     (∃ rb ∈ ev.rblocks, rb.1 = hd.num ∧ rb.2.num = hd.num ∧
@@ -198,27 +208,14 @@ theorem fresh_revert_absent_from_the_answering_chain (ev : Evidence) (hd : Blk) 
           (∃ b ∈ src, b.num = l.num ∧ b.hash = l.hash) → hd ∉ src) :=
   fresh_revert_sound hj
 
-/- FULL-STRENGTH statement — "the head only moves backwards by reverts of blocks the source no
-longer has, whatever the source does (… report stale heads, serve invalid blocks …)" — needs every
-revert to be decided by something the node has VERIFIED: `run_accepted_asFound` with mode `verified`.
-That is FALSE for the code in /repo: `isReverting` acts on the bare `(number, hash)` of
-`BlockHeaderLatest`, and `revertTask` compares the `Hash` field of an answer it never verifies.
-Both negation witnesses below are reproduced on the real synchroniser by the harness (findings
-`reverted-live-block-on-unverifiable-latest-header`, `…-on-hash-altered-answer-to-revertTask`).
-`run_accepted_asFound` above is the proved part (`_partial` alias); with the two proposed fixes the
-full statement holds (`run_accepted_with_proposed_fixes`). -/
-theorem reverts_decided_by_verified_answers_partial (c : Chain) (es : List Ev) (hl : Linked c)
-    (hb : ∀ x ∈ c, x.num < U64) (he : EnvOK es) :
-    ∃ sp, Spec.run .fresh (Spec.init c) ((Impl.init c).trace Cfg.asFound es) = .ok sp :=
-  let ⟨sp, h, _⟩ := run_accepted_asFound c es hl hb he; ⟨sp, h⟩
+/-- code variant of /repo before 158580c and 40dc8b7 (the first three fixes only) -/
+def cfgBeforeReviewFixes : Cfg := ⟨true, true, true, false, false⟩
 
-/-- NEGATION WITNESS 1 (defect in /repo): node and source hold the same chain `[g, x1, x2, x3]`. ONE
-`BlockHeaderLatest` answer `(0, 999)` — a hash no chain contains — and the code reverts blocks 3, 2, 1
-without asking for any of them; then it asks for block 0, is told the truth and stops. The `fresh`
-relation accepts the run (a header was given), the `verified` relation rejects it; the code with
-`confirmLatest` asks for block 0 first, sees that it does not carry the announced hash, and reverts
-nothing. -/
-theorem lying_latest_header_reverts_live_blocks :
+/-- (fixed by 158580c) REGRESSION WITNESS: node and source hold the same chain `[g, x1, x2, x3]`. ONE
+`BlockHeaderLatest` answer `(0, 999)` — a hash no chain contains — and the code reverted blocks 3, 2, 1
+without asking for any of them. Accepted by `fresh`, rejected by `verified`; the code in /repo asks
+for block 0 first, sees that it does not carry the announced hash, and reverts nothing. -/
+theorem lying_latest_header_reverts_live_blocks_before_158580c :
     let g : Blk := ⟨0, 1, 0, true⟩
     let x1 : Blk := ⟨1, 2, 1, true⟩
     let x2 : Blk := ⟨2, 3, 2, true⟩
@@ -226,57 +223,34 @@ theorem lying_latest_header_reverts_live_blocks :
     let es : List Ev := [.reorgDetected 4 (some ⟨0, 999⟩) (some g), .iter none true, .iter none true,
       .iter none true, .iter (some g) true]
     EnvOK es ∧
-    (Impl.run Cfg.asFound (Impl.init [x3, x2, x1, g]) es).2 =
+    (Impl.run cfgBeforeReviewFixes (Impl.init [x3, x2, x1, g]) es).2 =
       [Obs.reverted 3 4, Obs.reverted 2 3, Obs.reverted 1 2] ∧
     rejectOf (Spec.run .fresh (Spec.init [x3, x2, x1, g])
-      ((Impl.init [x3, x2, x1, g]).trace Cfg.asFound es)) = none ∧
+      ((Impl.init [x3, x2, x1, g]).trace cfgBeforeReviewFixes es)) = none ∧
     rejectOf (Spec.run .verified (Spec.init [x3, x2, x1, g])
-      ((Impl.init [x3, x2, x1, g]).trace Cfg.asFound es)) = some .revertNotJustified ∧
-    (Impl.run Cfg.fixed (Impl.init [x3, x2, x1, g]) es).2 = [] := by
+      ((Impl.init [x3, x2, x1, g]).trace cfgBeforeReviewFixes es)) = some .revertNotJustified ∧
+    (Impl.run Cfg.asFound (Impl.init [x3, x2, x1, g]) es).2 = [] := by
   refine ⟨⟨rfl, rfl, rfl, rfl, trivial⟩, by decide, by decide, by decide, by decide⟩
 
-/-- NEGATION WITNESS 2 (defect in /repo): a revert task is running (here started by the lying header
-`(1, 999)`); for block 0 the source answers with the genesis whose `Hash` field is altered — an
-answer `SanityCheckNewHeight` refuses (`ok = false`). `revertTask` compares the hash without
-verifying and reverts the genesis: the chain is empty. Accepted by `fresh`, rejected by `verified`;
-the code with `verifyAns` breaks instead (and with `confirmLatest` never starts the task). -/
-theorem hash_altered_answer_reverts_live_block :
+/-- (fixed by 40dc8b7) REGRESSION WITNESS: a revert task is running; for block 0 the source answers
+with the genesis whose `Hash` field is altered — an answer `SanityCheckNewHeight` refuses
+(`ok = false`). `revertTask` compared the hash without verifying and reverted the genesis: the chain
+was empty. Accepted by `fresh`, rejected by `verified`; with `verifyAns` alone the task breaks at
+block 0, and the code in /repo (with `confirmLatest` too) never starts it. -/
+theorem hash_altered_answer_reverts_live_block_before_40dc8b7 :
     let g : Blk := ⟨0, 1, 0, true⟩
     let x1 : Blk := ⟨1, 2, 1, true⟩
     let bad : Blk := ⟨0, 555, 0, false⟩
     let es : List Ev := [.reorgDetected 2 (some ⟨1, 999⟩) none, .iter none true, .iter (some bad) true]
     EnvOK es ∧
-    (Impl.run Cfg.asFound (Impl.init [x1, g]) es).2 = [Obs.reverted 1 2, Obs.reverted 0 1] ∧
-    (Impl.run Cfg.asFound (Impl.init [x1, g]) es).1.node.chain = [] ∧
-    rejectOf (Spec.run .fresh (Spec.init [x1, g]) ((Impl.init [x1, g]).trace Cfg.asFound es)) = none ∧
-    rejectOf (Spec.run .verified (Spec.init [x1, g]) ((Impl.init [x1, g]).trace Cfg.asFound es)) =
+    (Impl.run cfgBeforeReviewFixes (Impl.init [x1, g]) es).2 = [Obs.reverted 1 2, Obs.reverted 0 1] ∧
+    (Impl.run cfgBeforeReviewFixes (Impl.init [x1, g]) es).1.node.chain = [] ∧
+    rejectOf (Spec.run .fresh (Spec.init [x1, g]) ((Impl.init [x1, g]).trace cfgBeforeReviewFixes es)) = none ∧
+    rejectOf (Spec.run .verified (Spec.init [x1, g]) ((Impl.init [x1, g]).trace cfgBeforeReviewFixes es)) =
       some .revertNotJustified ∧
     (Impl.run ⟨true, true, true, true, false⟩ (Impl.init [x1, g]) es).2 = [Obs.reverted 1 2] ∧
-    (Impl.run Cfg.fixed (Impl.init [x1, g]) es).2 = [] := by
+    (Impl.run Cfg.asFound (Impl.init [x1, g]) es).2 = [] := by
   refine ⟨⟨rfl, rfl, trivial⟩, by decide, by decide, by decide, by decide, by decide, by decide⟩
-
-/-- WITH THE TWO PROPOSED FIXES (`verifyAns`, `confirmLatest`; every earlier fix in place) the
-full-strength relation holds for all runs: every revert is decided by a VERIFIED block the source
-served, for its own height, since the last store. -/
-theorem run_accepted_with_proposed_fixes (cfg : Cfg) (h1 : cfg.numCheck = true)
-    (h2 : cfg.confirmHead = true) (h3 : cfg.verifyAns = true) (h4 : cfg.confirmLatest = true)
-    (c : Chain) (es : List Ev) (hl : Linked c) (hb : ∀ x ∈ c, x.num < U64) (he : EnvOK es) :
-    ∃ sp, Spec.run .verified (Spec.init c) ((Impl.init c).trace cfg es) = .ok sp ∧
-      sp.chain = (Impl.run cfg (Impl.init c) es).1.node.chain ∧ sp.owed = [] :=
-  let ⟨sp, h, hc, ho, _⟩ := run_accepted_general cfg .verified ⟨fun _ => h2, fun _ => ⟨h3, h4⟩⟩ c es hl hb
-    (EnvOK.runOK h1 es _ he)
-  ⟨sp, h, hc, ho⟩
-
-/-- … and then "of blocks the source no longer has" holds per decision, for a source that reorgs
-and lies at will: the deciding answer is ONE verified block `rb`, served for its own height after
-the reverted head was stored, and the head is absent from EVERY well-formed chain that contains
-`rb` — in particular from the source's chain at the moment it served `rb`. -/
-theorem verified_revert_absent_from_the_answering_chain (ev : Evidence) (hd : Blk) (tl : Chain)
-    (hj : justified .verified ev (hd :: tl) hd = true) :
-    ∃ rb ∈ ev.rblocks, rb.2.ok = true ∧ rb.1 = rb.2.num ∧ rb.2.num ≤ hd.num ∧
-      ∀ (u : List Blk) (src : Chain), HashInj u → Linked (hd :: tl) → Linked src →
-        (∀ x ∈ hd :: tl, x ∈ u) → (∀ x ∈ src, x ∈ u) → rb.2 ∈ src → hd ∉ src :=
-  verified_revert_sound hj
 
 /-- REACHABILITY. The well-formedness `run_accepted` asks of the initial chain is an invariant:
 every chain the machine produces (numbers 0,1,2,…, each block naming its predecessor's hash,
@@ -306,7 +280,7 @@ theorem wrong_number_answer_reverts_unjustified_before_6c0318d :
     (Impl.run Cfg.original (Impl.init [x1, g]) es).2 = [Obs.reverted 1 2, Obs.reverted 0 1] ∧
     rejectOf (Spec.run .lenient (Spec.init [x1, g]) ((Impl.init [x1, g]).trace Cfg.original es)) =
       some .revertNotJustified ∧
-    (Impl.run Cfg.asFound (Impl.init [x1, g]) es).2 = [Obs.reverted 1 2] := by
+    (Impl.run ⟨true, true, true, false, false⟩ (Impl.init [x1, g]) es).2 = [Obs.reverted 1 2] := by
   refine ⟨by decide, by decide, by decide⟩
 
 /-- (fixed by 508f9af) a successor block fetched before a reorg made `storeTask` revert the new
